@@ -170,6 +170,40 @@ def run_extraction(ex: Extraction, report):
         t = SrcText.from_file_slice(src, s, e)
         rec["item"] = "%s %s" % (kind, name)
         rec["lines"] = [src.count("\n", 0, s) + 1, src.count("\n", 0, e) + 1]
+        if "fields" in ex.args:
+            keep = ex.args["fields"].split(",")
+            mk = mask(t.s)
+            ob = mk.index("{")
+            cb = match_delim(mk, ob)
+            # split fields at depth-0 commas
+            segs = []
+            j = ob + 1
+            st0 = j
+            while j < cb:
+                if mk[j] in "([{":
+                    j = match_delim(mk, j)
+                elif mk[j] == "<":
+                    pass
+                elif mk[j] == "," :
+                    # commas inside <...> generics: track angle depth cheaply
+                    seg = mk[st0:j]
+                    if seg.count("<") == seg.count(">") - seg.count("->"):
+                        segs.append((st0, j + 1))
+                        st0 = j + 1
+                j += 1
+            if mk[st0:cb].strip():
+                segs.append((st0, cb))
+            dropped = []
+            for (a0, b0) in reversed(segs):
+                mm = re.search(r"(\w+)\s*:", mk[a0:b0])
+                fname = mm.group(1) if mm else None
+                if fname not in keep:
+                    dropped.append(fname)
+                    t.delete(a0, b0)
+            missing = [k for k in keep if not re.search(r"\b%s\s*:" % re.escape(k), mask(t.s))]
+            if missing:
+                raise LostAnchor("fields %s not found in %s %s" % (missing, kind, name))
+            rec["rewrites"].append({"rule": "R5 field projection", "kept": keep, "dropped": list(reversed(dropped))})
     elif ex.mode in ("body", "item"):
         s, o, c = _locate(ex, src, msk)
         rec["item"] = (ex.args.get("impl", "") + "::" if "impl" in ex.args else "") + "fn " + ex.args.get("fn", "?")
